@@ -32,7 +32,9 @@ def flatDeps : List Dep → List (Str × Details)
   | [] => []
   | d :: ds => flatDep d ++ flatDeps ds
 def flatDep : Dep → List (Str × Details)
-  | .mk name version commit deps => flatDeps deps ++ [entryOf name version commit]
+  | .mk name version commit deps =>
+    -- an entry without a name (an empty key, an alias without a target) is not a package; its children still are
+    flatDeps deps ++ (if (entryOf name version commit).2.name.isEmpty then [] else [entryOf name version commit])
 end
 
 /-- the (key, details) writes of a v2/v3 `packages` map: every entry except the root project `""` -/
@@ -55,10 +57,13 @@ end PackageLock
 
 namespace Pipfile
 /-- what one entry of `default` / `develop` denotes: a pinned `==version` gives a package -/
-def pinned (e : Str × Str) : Option NV :=
+def pinnedV (e : Str × Str) : Option NV :=
   match e.2 with
   | '=' :: '=' :: c :: rest => some ⟨e.1, c :: rest⟩
   | _ => none
+
+/-- … under a name: an entry under an empty key is not a package -/
+def pinned (e : Str × Str) : Option NV := if e.1.isEmpty then none else pinnedV e
 
 /-- the de-duplication key of the extractor's map -/
 def keyNV (nv : NV) : Str := nv.name ++ '@' :: nv.version
@@ -74,7 +79,7 @@ namespace PackagesLock
 /-- every (id, resolved version) the file lists as a NuGet package under any target framework; a `"type": "Project"` entry is a
 project reference, not a package -/
 def listed (d : Doc) : List NV :=
-  d.flatMap fun fw => (fw.2.filter fun e => e.2.2 ≠ "Project".toList).map fun e => ⟨e.1, e.2.1⟩
+  d.flatMap fun fw => (fw.2.filter fun e => e.2.2 ≠ "Project".toList ∧ e.1 ≠ []).map fun e => ⟨e.1, e.2.1⟩
 
 /-- what a scan must report: the DISTINCT (id, version) pairs — NuGet resolves every target framework on its own, so one id
 can be listed at different versions (two packages) or at the same version (one package) -/
